@@ -18,8 +18,9 @@
 (*                       parameters (does not stop the trace)              *)
 (* A trace stops without blame where the history leaves the exact fragment *)
 (* (stop = inadmissible | undefined | large).                              *)
-(* Verdict: <<"V", tid, clause|"ok", step, costclause|"ok", coststep,      *)
-(*            calls validated, values bridged, stop>>.                     *)
+(* Verdict: <<"V", tid, clause|"ok", step, calls validated, values         *)
+(*     bridged, stop>> and <<"C", tid, costclause|"ok", step>> (two short  *)
+(*     lines: TLC wraps long tuples).                                      *)
 (***************************************************************************)
 EXTENDS Optimizers, Json, IOUtils
 CONSTANT NTRACES
@@ -92,7 +93,8 @@ TStep ==
                        /\ UNCHANGED <<nval, nbr>>
                /\ UNCHANGED tid
 TDone == /\ l = NCalls + 1
-         /\ PrintT(<<"V", tid, verdict, vstep, cverdict, cstep, nval, nbr, stop>>)
+         /\ PrintT(<<"V", tid, verdict, vstep, nval, nbr, stop>>)
+         /\ PrintT(<<"C", tid, cverdict, cstep>>)
          /\ (IF Trc.e THEN PrintT(ToJson([tid |-> tid, exp |-> exp])) ELSE TRUE)
          /\ l' = l + 1
          /\ UNCHANGED <<tid, st, verdict, vstep, cverdict, cstep, nval, nbr, stop, exp>>
